@@ -102,6 +102,9 @@ def _correspond(ctx, corr, sess, rng):
     cap = 40000
 
     def run(sc, suite="commissioning"):
+        if sc.get("avail") is not None and "avail_form" not in sc:
+            # the permitted set arrives as a list, a tuple, a one-shot iterator, a generator or a dict view
+            sc = dict(sc, avail_form=rng.choice(["list", "list", "tuple", "iter", "generator", "dictkeys"]))
         res = sess.run(sc, rng=rng, cap=cap)
         L.judge(corr, suite, key_of(sc), sc, res)
         corr.nontrivial((sc["class"], len(sc["bus"]), sc["readdress"], sc["dry"], res["result"], res["n"] // 500))
